@@ -1,7 +1,7 @@
 #!/bin/bash
 # run_wb.sh <dir with wN/deliver/Cxx-n/patch.diff>: apply each white-box change to /repo, run the property's quick check, undo
 cd /verif
-for d in $1/w*/deliver/*/; do
+for d in $1/deliver/*/ $1/w*/deliver/*/; do [ -f $d/patch.diff ] || continue
   id=$(basename $d); p=${id%%-*}
   git -C /repo checkout -q -- . ; git -C /repo clean -fdq
   if ! git -C /repo apply $d/patch.diff 2>/dev/null; then echo "== $id APPLY-FAILED"; continue; fi
